@@ -182,6 +182,7 @@ class Interp(object):
         self.pc = []
         self.options = {"set_order": "natural"}
         self.deadline = None
+        self.budget_exhausted = False
         self.path_hooks = []
         self.fresh_mode = False
         self.in_prefix = False
@@ -548,6 +549,15 @@ class Interp(object):
                     outcome = ("inconclusive", e.reason)
             if on_path is not None:
                 on_path(outcome)
+            if self.deadline is not None and time.time() > self.deadline:
+                # the job's wall-clock budget is used up: stop here; the runner reports the job as not exhausted (exit 2)
+                while self.depth > 0:
+                    self._spop()
+                    self.depth -= 1
+                self.keep = 0
+                CURRENT[0] = None
+                self.budget_exhausted = True
+                return npaths
             # backtrack: drop exhausted decisions, advance the last open one
             while self.log and self.log[-1][1] + 1 >= len(self.log[-1][0]):
                 self.log.pop()
@@ -953,6 +963,8 @@ class Interp(object):
     # calls
     def _step(self):
         self.path_steps += 1
+        if self.deadline is not None and (self.path_steps & 4095) == 0 and time.time() > self.deadline:
+            raise Inconclusive("time budget exhausted (after %d steps on this path)" % self.path_steps)
         if self.step_limit is not None and self.path_steps > self.step_limit:
             lim, self.step_limit = self.step_limit, None
             from .values import CostLimitExceeded
